@@ -9,7 +9,8 @@
    (Prop_C01).  For every environment, query of any depth, measurement filter, state. *)
 From Coq Require Import List ZArith NArith Bool.
 From TF Require Import Base Query Index DB Spec proofs.LawsP proofs.IndexDefs proofs.RepP proofs.DBReadP proofs.DBRemoveP
-     proofs.DBStepP proofs.DBRunP proofs.DBSpecP ReadSem RemoveSem proofs.RemoveGenP.
+     proofs.DBStepP proofs.DBRunP proofs.DBSpecP ReadSem RemoveSem proofs.RemoveGenP MemSem proofs.MemStoreGenP.
+From TF Require gen.MemStoreGen.
 From TF Require gen.RemoveGen.
 Import ListNotations.
 
@@ -73,6 +74,30 @@ Theorem C02_source_drop_exact : forall E s name, Inv s -> name <> [] ->
   st_rows (fst r) = filter (fun p => negb (str_eqb (p_meas p) name)) (st_rows s) /\ Inv (fst r).
 Proof. exact gen_drop_spec. Qed.
 
+(* class MemoryStorage, every method translated from storages.py (gen/MemStoreGen.v; the two list attributes WITH the fact whether they are one list object) *)
+Theorem C02_source_memory_storage_append : forall s items,
+  rows (MemStoreGen.gen_append s items false) = rows s ++ items /\ m_shared (MemStoreGen.gen_append s items false) = m_shared s
+  /\ (m_shared s = false -> staged (MemStoreGen.gen_append s items false) = staged s).
+Proof. exact gen_append_primary. Qed.
+Theorem C02_source_memory_storage_rewrite_leaves_exactly_what_was_staged : forall s batches,
+  let s' := MemStoreGen.gen__cleanup_temp_storage (MemStoreGen.gen__swap_temp_with_primary (stage (MemStoreGen.gen__init_temp_storage s) batches)) in
+  rows s' = concat batches /\ staged s' = [] /\ m_shared s' = false.
+Proof. exact gen_rewrite_protocol. Qed.
+Theorem C02_source_memory_storage_removal_keeps_the_kept_rows : forall s keep,
+  rows (rewrite_with s (map (fun p => [p]) (filter keep (rows s)))) = filter keep (rows s).
+Proof. exact gen_rewrite_keeps_filtered. Qed.
+Theorem C02_source_memory_storage_abandoned_rewrite_changes_nothing : forall s batches,
+  let s' := MemStoreGen.gen__cleanup_temp_storage (stage (MemStoreGen.gen__init_temp_storage s) batches) in
+  rows s' = rows s /\ staged s' = [] /\ m_shared s' = false.
+Proof. exact gen_abandoned_rewrite. Qed.
+Theorem C02_source_memory_storage_reset : forall s, rows (MemStoreGen.gen_reset s) = [] /\ staged (MemStoreGen.gen_reset s) = staged s.
+Proof. exact gen_reset_rows. Qed.
+Theorem C02_source_memory_storage_reads : forall s, MemStoreGen.gen_read s = rows s /\ MemStoreGen.gen___iter__ s = rows s /\ MemStoreGen.gen___len__ s = length (rows s).
+Proof. intros s. split; [exact (gen_read_eq s)|]. split; [exact (gen_iter_eq s)|exact (gen_len_eq s)]. Qed.
+Theorem C02_source_memory_storage_sharing_ends_with_the_cleanup : forall s x,
+  rows (MemStoreGen.gen_append (MemStoreGen.gen__swap_temp_with_primary s) [x] true) = staged s ++ [x].
+Proof. exact gen_swap_then_staged_append_is_visible. Qed.
+
 Print Assumptions C02_remove_exact.
 Print Assumptions C02_removed_is_gone.
 Print Assumptions C02_drop_is_removal_by_name.
@@ -86,3 +111,10 @@ Print Assumptions C02_source_remove_is_the_model.
 Print Assumptions C02_source_drop_is_the_model.
 Print Assumptions C02_source_remove_exact.
 Print Assumptions C02_source_drop_exact.
+Print Assumptions C02_source_memory_storage_append.
+Print Assumptions C02_source_memory_storage_rewrite_leaves_exactly_what_was_staged.
+Print Assumptions C02_source_memory_storage_removal_keeps_the_kept_rows.
+Print Assumptions C02_source_memory_storage_abandoned_rewrite_changes_nothing.
+Print Assumptions C02_source_memory_storage_reset.
+Print Assumptions C02_source_memory_storage_reads.
+Print Assumptions C02_source_memory_storage_sharing_ends_with_the_cleanup.
